@@ -115,7 +115,7 @@ func vCancelledCtx() vCtxC {
 	return vCtxC{done: d, err: vErrDecrypt}
 }
 
-//verif: replay=none cover=rearmed,one-shot bounds="p2pke.Timer: a pending timer that fires runs its callback once; a callback that re-arms its own timer leaves it pending and it fires again; a stopped timer does nothing"
+// verif: replay=none cover=rearmed,one-shot bounds="p2pke.Timer: a pending timer that fires runs its callback once; a callback that re-arms its own timer leaves it pending and it fires again; a stopped timer does nothing"
 func VH_C07_timerRearmFromCallback() bool {
 	calls := 0
 	rearm := vBool()
@@ -147,7 +147,7 @@ func VH_C07_timerRearmFromCallback() bool {
 	return true
 }
 
-//verif: replay=none time=concrete cover=armed,unarmed bounds="Channel.getOrInit (the core of Send/WaitReady) on any channel with neither a current nor a pending session: an immediate handshake is scheduled (rekey timer reset to 0) whether or not the periodic rekey timer is already armed"
+// verif: replay=none time=concrete cover=armed,unarmed bounds="Channel.getOrInit (the core of Send/WaitReady) on any channel with neither a current nor a pending session: an immediate handshake is scheduled (rekey timer reset to 0) whether or not the periodic rekey timer is already armed"
 func VH_C07_sendWithoutSessionStartsHandshakeNow() bool {
 	e := vChannel()
 	c := e.c
@@ -165,7 +165,7 @@ func VH_C07_sendWithoutSessionStartsHandshakeNow() bool {
 	return true
 }
 
-//verif: replay=none time=concrete cover=sent,idle bounds="Channel.onHandshake from any invariant state: every not-ready session's current handshake message is sent, and the handshake timer is re-armed with the backoff exactly when something was sent"
+// verif: replay=none time=concrete cover=sent,idle bounds="Channel.onHandshake from any invariant state: every not-ready session's current handshake message is sent, and the handshake timer is re-armed with the backoff exactly when something was sent"
 func VH_C07_handshakeRetransmission() bool {
 	e := vChannel()
 	c := e.c
